@@ -207,6 +207,29 @@ class Frame(object):
         self.locals[name] = value
 
 
+_LOOP_LOCALS = None
+
+
+def alpha_name(frame, name):
+    """A loop contract names the locals of the function as they were called when the contract was written (contracts/loop_locals.json records the binding order
+    of every function with a loop contract).  When a local of that name no longer exists but the function still binds the same NUMBER of locals in the same order,
+    the local was renamed: the contract's name stands for the local bound at the same position.  Anything else is not guessed (None)."""
+    global _LOOP_LOCALS
+    if _LOOP_LOCALS is None:
+        import json
+        import os
+        p = os.path.join(os.path.dirname(os.path.dirname(os.path.abspath(__file__))), 'contracts', 'loop_locals.json')
+        _LOOP_LOCALS = json.load(open(p)) if os.path.exists(p) else {}
+    pinned = _LOOP_LOCALS.get(getattr(frame, 'qual', None))
+    cur = getattr(frame, 'varnames', None)
+    if not pinned or not cur or name not in pinned or len(pinned) != len(cur):
+        return None
+    alt = cur[pinned.index(name)]
+    if alt == name or alt in pinned:
+        return None
+    return alt
+
+
 class LocalsView(object):
     """Attribute-style read access to a frame's locals for loop invariants."""
 
@@ -218,7 +241,12 @@ class LocalsView(object):
         x = object.__getattribute__(self, '_x')
         if name in x:
             return x[name]
-        return object.__getattribute__(self, '_f').lookup(name)
+        f = object.__getattribute__(self, '_f')
+        if name not in f.locals:
+            alt = alpha_name(f, name)
+            if alt is not None:
+                return f.lookup(alt)
+        return f.lookup(name)
 
     def __contains__(self, name):
         f = object.__getattribute__(self, '_f')
@@ -761,6 +789,8 @@ def call_function(ctx, fn, args, kwargs, defcls=None):
             if defcls is None:
                 defcls = _guess_defcls(fn)
             frame = Frame(globs, defcls=defcls, fkey=_fkey(fn), fname=fn.__qualname__)
+            frame.qual = getattr(fn, '__module__', '?') + '.' + fn.__qualname__
+            frame.varnames = list(getattr(getattr(fn, '__code__', None), 'co_varnames', ()) or ())
             if fn.__closure__:
                 for nm, cell in zip(fn.__code__.co_freevars, fn.__closure__):
                     try:
@@ -1175,6 +1205,8 @@ class Interp(object):
         return names
 
     def _havoc(self, names, extra):
+        if extra:
+            extra = {(alpha_name(self.f, k) or k) if (not k.startswith('__') and k not in self.f.locals and k not in names) else k: v for k, v in extra.items()}
         for nm in sorted(names):
             if nm in (extra or {}) and not nm.startswith('__') and nm in self.f.locals and not isinstance(self.f.locals[nm], MBytes):
                 self.f.locals[nm] = extra[nm](self.ctx)
